@@ -17,18 +17,24 @@ type C09Monitor struct {
 	// lease end per resource as the property defines it: last acquire or heartbeat
 	// (of the owning process) time plus ttl; kept by the oracle, not read from the row
 	leaseEnd map[string]int64
+	// ttl per resource as the property defines it: the ttl of the holder's last acquire
+	// (a heartbeat extends the lease to heartbeat time + THAT ttl); kept by the oracle,
+	// the row's ttl column is not trusted
+	ttl      map[string]int64
 	commitOf map[string]*world.CommitEvent // request id -> its (single) commit
 }
 
 func (m *C09Monitor) OnStart(w *world.World) {
 	m.leaseEnd = map[string]int64{}
 	m.commitOf = map[string]*world.CommitEvent{}
+	m.ttl = map[string]int64{}
 	for id, l := range w.Dump().Locks {
 		m.leaseEnd[id] = l.ExpiresAt
+		m.ttl[id] = l.Ttl
 	}
 }
 
-func (m *C09Monitor) Key() string { return fmt.Sprint(m.leaseEnd) }
+func (m *C09Monitor) Key() string { return fmt.Sprint(m.leaseEnd, m.ttl) }
 
 func (m *C09Monitor) OnCommit(w *world.World, e *world.CommitEvent) {
 	if m.leaseEnd == nil {
@@ -91,12 +97,23 @@ func (m *C09Monitor) OnCommit(w *world.World, e *world.CommitEvent) {
 				w.Violate("C09:lock-taken-away", "lock %s disappeared in commit %v although its lease runs until %d (clock %d): neither released by its execution nor expired", b, e.Owners, m.leaseEnd[id], e.Clock)
 			}
 			delete(m.leaseEnd, id)
+			delete(m.ttl, id)
 			continue
 		}
 		if a.ExecutionId != b.ExecutionId {
 			// holder changed in place
 			if single {
 				w.Violate("C09:holder-changed", "lock %q changed holder in place: %s -> %s (commit %v)", id, b, a, e.Owners)
+			}
+		}
+		if a.ExecutionId != b.ExecutionId {
+			m.ttl[id] = a.Ttl // released and taken by another execution inside one batch
+		}
+		// the ttl the lease is computed from: that of the holder's last acquire, also when
+		// the re-acquire is part of this very batch
+		for _, q := range acquires[id] {
+			if q.exec == b.ExecutionId && a.ExecutionId == b.ExecutionId {
+				m.ttl[id] = q.ttl
 			}
 		}
 		if a.ExpiresAt != b.ExpiresAt || a.ProcessId != b.ProcessId || a.Ttl != b.Ttl {
@@ -107,12 +124,19 @@ func (m *C09Monitor) OnCommit(w *world.World, e *world.CommitEvent) {
 					m.leaseEnd[id] = q.t + q.ttl
 				}
 			}
-			if t, hb := heartbeats[b.ProcessId]; hb && a.ProcessId == b.ProcessId && a.Ttl == b.Ttl && a.ExpiresAt == t+b.Ttl {
-				ok = true
-				m.leaseEnd[id] = t + b.Ttl
+			if t, hb := heartbeats[b.ProcessId]; hb && a.ProcessId == b.ProcessId {
+				if a.ExpiresAt == t+m.ttl[id] {
+					ok = true
+					m.leaseEnd[id] = t + m.ttl[id]
+				} else if !ok && single && a.ExpiresAt == t+b.Ttl {
+					ok = true // reported here, not again as lease-rewritten
+					w.Violate("C09:heartbeat-lease-not-from-acquired-ttl", "heartbeat of process %q at %d moved the lease of lock %q to %d, but the holder's last acquire asked for ttl %d (lease end %d): %s -> %s (commit %v)", b.ProcessId, t, id, a.ExpiresAt, m.ttl[id], t+m.ttl[id], b, a, e.Owners)
+					m.leaseEnd[id] = t + m.ttl[id]
+				}
 			}
 			if !ok && !single {
 				m.leaseEnd[id] = a.ExpiresAt // several commands of one batch touched the row: not attributable
+				m.ttl[id] = a.Ttl
 			}
 			if !ok && single {
 				w.Violate("C09:lease-rewritten", "lock %q lease/owner fields changed without an acquire by its execution or a heartbeat of its process: %s -> %s (commit %v)", id, b, a, e.Owners)
@@ -126,6 +150,7 @@ func (m *C09Monitor) OnCommit(w *world.World, e *world.CommitEvent) {
 		ok := false
 		for _, q := range acquires[id] {
 			if q.exec == a.ExecutionId && q.proc == a.ProcessId && a.Ttl == q.ttl {
+				m.ttl[id] = q.ttl
 				if a.ExpiresAt == q.t+q.ttl {
 					ok = true
 					m.leaseEnd[id] = q.t + q.ttl
@@ -138,6 +163,7 @@ func (m *C09Monitor) OnCommit(w *world.World, e *world.CommitEvent) {
 		if !ok {
 			w.Violate("C09:lock-created-without-acquire", "lock %s appeared without a matching acquire (commit %v): a heartbeat or other command created or transferred it", a, e.Owners)
 			m.leaseEnd[id] = a.ExpiresAt
+			m.ttl[id] = a.Ttl
 		}
 	}
 }
